@@ -27,20 +27,33 @@
 //
 // (c) graceful shutdown: a real daemon on loopback, Close released at each
 //
-//	hooked point of an in-flight request.
+//	hooked point of an in-flight request;
+//
+// (d) the real `relic serve` process and the signals it registers for, delivered
+//
+//	while a request is in flight (signals.go).
+//
+// Callers are configured by fingerprint or admitted through a CA certificate (two
+// harness CAs, several certificate holders each); every identity field of the audit
+// record is compared per request.
 package main
 
 import (
 	"bytes"
 	"compress/gzip"
 	"context"
+	"crypto/ecdsa"
+	"crypto/elliptic"
+	"crypto/rand"
 	"crypto/sha256"
 	"crypto/tls"
 	"crypto/x509"
+	"crypto/x509/pkix"
 	"encoding/hex"
 	"encoding/json"
 	"fmt"
 	"io"
+	"math/big"
 	"net"
 	"net/http"
 	"net/http/httptest"
@@ -103,18 +116,49 @@ type client struct {
 	Leaf     string // fixture whose leaf certificate the client presents
 	Nickname string
 	Roles    []string // nil: the certificate is not configured on the server
+	// CA: the client is not configured by fingerprint; it holds a certificate
+	// (subject CN = CN) issued by this harness CA, which a clients: entry names
+	// through its certificate: field (see caEntries). Nickname and Roles are that
+	// entry's.
+	CA string
+	CN string
+	// IP: the address the client connects from ("" = 192.0.2.77)
+	IP string
+}
+
+// caEntries: the clients: entries that admit callers through a CA certificate.
+// "build-ca" has a nickname; "anon-ca" has none (relic then names the caller by
+// the first 12 hex digits of its public key's fingerprint).
+var caEntries = map[string]client{
+	"build-ca": {Nickname: "short-lived-builds", Roles: []string{"r"}},
+	"anon-ca":  {Nickname: "", Roles: []string{"rel", "night"}},
 }
 
 // The role sets select different, partly overlapping subsets of the keys (see
 // mkConfig): r sees every key of the base configuration, rel and night two
 // different subsets, both their union, norole nothing; stranger is turned away.
 var clients = map[string]client{
-	"":         {"rsaB", "verif-client", []string{"r"}},
-	"rel":      {"p256B", "release-eng", []string{"rel"}},
-	"night":    {"p384", "nightly-builder", []string{"night"}},
-	"both":     {"p521", "both-teams", []string{"rel", "night"}},
-	"norole":   {"p256A", "no-role", []string{"unused"}},
-	"stranger": {"rsaA", "", nil},
+	"":         {Leaf: "rsaB", Nickname: "verif-client", Roles: []string{"r"}},
+	"rel":      {Leaf: "p256B", Nickname: "release-eng", Roles: []string{"rel"}, IP: "192.0.2.78"},
+	"night":    {Leaf: "p384", Nickname: "nightly-builder", Roles: []string{"night"}, IP: "192.0.2.79"},
+	"both":     {Leaf: "p521", Nickname: "both-teams", Roles: []string{"rel", "night"}, IP: "192.0.2.80"},
+	"norole":   {Leaf: "p256A", Nickname: "no-role", Roles: []string{"unused"}},
+	"stranger": {Leaf: "rsaA"},
+	// holders of certificates issued by one CA that a clients: entry names
+	"ca-alice": {CA: "build-ca", CN: "alice", IP: "192.0.2.101"},
+	"ca-bob":   {CA: "build-ca", CN: "bob", IP: "192.0.2.102"},
+	"ca-carol": {CA: "build-ca", CN: "carol", IP: "192.0.2.103"},
+	"ca-dave":  {CA: "anon-ca", CN: "dave", IP: "192.0.2.104"},
+	"ca-erin":  {CA: "anon-ca", CN: "erin", IP: "192.0.2.105"},
+}
+
+func init() {
+	for name, cl := range clients {
+		if cl.CA != "" {
+			cl.Nickname, cl.Roles = caEntries[cl.CA].Nickname, caEntries[cl.CA].Roles
+			clients[name] = cl
+		}
+	}
 }
 
 var clientOrder = []string{"", "rel", "night", "both", "norole", "stranger"}
@@ -129,10 +173,96 @@ func clientCert(name string) *x509.Certificate {
 	defer certMu.Unlock()
 	c := certCache[name]
 	if c == nil {
-		c = relicx.LeafOf(clients[name].Leaf)
+		if cl := clients[name]; cl.CA != "" {
+			c = issueClient(cl.CA, cl.CN)
+		} else {
+			c = relicx.LeafOf(cl.Leaf)
+		}
 		certCache[name] = c
 	}
 	return c
+}
+
+// harness CAs (made when the process starts: every process of a run has its own)
+type harnessCA struct {
+	cert *x509.Certificate
+	key  *ecdsa.PrivateKey
+}
+
+var harnessCAs = map[string]*harnessCA{}
+
+func caOf(name string) *harnessCA {
+	if ca := harnessCAs[name]; ca != nil {
+		return ca
+	}
+	key, err := ecdsa.GenerateKey(elliptic.P256(), rand.Reader)
+	if err != nil {
+		panic(err)
+	}
+	now := time.Now()
+	t := &x509.Certificate{SerialNumber: big.NewInt(1), Subject: pkix.Name{CommonName: "verif C14 " + name}, NotBefore: now.Add(-time.Hour), NotAfter: now.Add(72 * time.Hour),
+		BasicConstraintsValid: true, IsCA: true, KeyUsage: x509.KeyUsageCertSign}
+	der, err := x509.CreateCertificate(rand.Reader, t, t, &key.PublicKey, key)
+	if err != nil {
+		panic(err)
+	}
+	c, err := x509.ParseCertificate(der)
+	if err != nil {
+		panic(err)
+	}
+	harnessCAs[name] = &harnessCA{c, key}
+	return harnessCAs[name]
+}
+
+// issueClient: a TLS client certificate with subject CN=cn issued by the harness CA
+// (called with certMu held)
+func issueClient(ca, cn string) *x509.Certificate {
+	a := caOf(ca)
+	key, err := ecdsa.GenerateKey(elliptic.P256(), rand.Reader)
+	if err != nil {
+		panic(err)
+	}
+	now := time.Now()
+	serial, _ := rand.Int(rand.Reader, big.NewInt(1<<62))
+	t := &x509.Certificate{SerialNumber: serial, Subject: pkix.Name{CommonName: cn}, NotBefore: now.Add(-time.Hour), NotAfter: now.Add(48 * time.Hour),
+		BasicConstraintsValid: true, KeyUsage: x509.KeyUsageDigitalSignature, ExtKeyUsage: []x509.ExtKeyUsage{x509.ExtKeyUsageClientAuth}}
+	der, err := x509.CreateCertificate(rand.Reader, t, a.cert, &key.PublicKey, a.key)
+	if err != nil {
+		panic(err)
+	}
+	c, err := x509.ParseCertificate(der)
+	if err != nil {
+		panic(err)
+	}
+	return c
+}
+
+// what the audit record of a request by this client must say about the caller:
+// client.name = the nickname of the clients: entry that admits it (an entry
+// without a nickname: the first 12 hex digits of the fingerprint of the caller's
+// public key), client.dn = the subject of the caller's certificate in OpenSSL's
+// one-line form when the entry admits by CA certificate ("the subject DN of the
+// leaf certificate is logged", doc/relic.yml) and absent otherwise, client.ip =
+// the address the request came from.
+func auditIdentity(name string) (cname, dn, ip string) {
+	cl := clients[name]
+	cname, dn, ip = cl.Nickname, "-", cl.IP
+	if cl.CA != "" {
+		dn = "/CN=" + cl.CN
+		if cname == "" {
+			cname = fingerprintOf(clientCert(name))[:12]
+		}
+	}
+	if ip == "" {
+		ip = "192.0.2.77"
+	}
+	return
+}
+
+// wantAuditLine: the audit record (as auditNames renders it) of a successful sign request
+func wantAuditLine(o op) string {
+	cname, dn, ip := auditIdentity(o.Client)
+	return strings.ToLower(fmt.Sprintf("%s|%s|%s|%s|%s|%s", o.Name, targetOf(o.Key), auditHash(o.Digest), cname, dn, ip))
 }
 
 // keyFixture: which fixture key pair a configured key name uses; keyTarget:
@@ -236,7 +366,8 @@ func (o op) request() *http.Request {
 		}
 		leaveMu.Unlock()
 	}
-	req.RemoteAddr = "192.0.2.77:4444"
+	_, _, ip := auditIdentity(o.Client)
+	req.RemoteAddr = ip + ":4444"
 	req.TLS = &tls.ConnectionState{PeerCertificates: []*x509.Certificate{clientCert(o.Client)}}
 	return req
 }
@@ -275,10 +406,16 @@ func mkConfig(audit string) *config.Config {
 		panic("default client is not relicx's client")
 	}
 	for name, cl := range clients {
-		if cl.Roles != nil {
+		if cl.Roles != nil && cl.CA == "" {
 			cfg.Clients[fingerprintOf(clientCert(name))] = &config.ClientConfig{Nickname: cl.Nickname, Roles: cl.Roles}
 		}
 	}
+	// clients admitted through a CA certificate: one entry per CA
+	certMu.Lock()
+	for name, e := range caEntries {
+		cfg.Clients[name] = &config.ClientConfig{Nickname: e.Nickname, Roles: e.Roles, Certificate: string(pemCert(caOf(name).cert))}
+	}
+	certMu.Unlock()
 	// ... over keys with different role lists. Every key of the base
 	// configuration stays usable with role r.
 	for key, more := range map[string][]string{"rsaA": {"rel"}, "p256A": {"night"}, "p256B": {"rel", "night"}, "p384": {"night"}} {
@@ -513,6 +650,24 @@ func scenarios(thorough bool) []scenario {
 		{"two-tokens-stalled-getkey", [][]op{{sA}, {sT2, {Kind: "keyinfo", Key: "t2key"}, {Kind: "health"}}}, &stall{"getkey", "rsaA", "tok"}, 0, false},
 		{"two-tokens-stalled-sign-on-the-other-token", [][]op{{sT2}, {sA, lst}}, &stall{"sign", "t2key", "tok2"}, 0, false},
 	}
+	// callers admitted through a CA certificate (clients.<name>.certificate): several
+	// holders of certificates of one CA share one clients: entry - its nickname and
+	// roles - and are told apart in the audit record by their certificate's subject
+	// (an entry without a nickname: also by their key's fingerprint)
+	caSign := func(cl, key, digest, desc string) op {
+		return by(cl, op{Kind: "sign", Name: cl + ".ps1", Key: key, Digest: digest, Desc: desc})
+	}
+	sc = append(sc,
+		scenario{Name: "ca-clients-two-holders-of-one-ca-overlap", Threads: [][]op{{caSign("ca-alice", "rsaA", "sha256", "")}, {caSign("ca-bob", "p256A", "sha384", "opus-bob")}}},
+		scenario{Name: "ca-clients-holder-and-fingerprint-client-same-key", Threads: [][]op{{caSign("ca-carol", "rsaA", "sha256", "opus-carol"), by("ca-carol", lst)}, {sA2}}},
+		scenario{Name: "ca-clients-entry-without-nickname-two-holders-overlap", Threads: [][]op{{caSign("ca-dave", "p256B", "sha256", "")}, {caSign("ca-erin", "p256B", "sha512", "opus-erin")}}},
+	)
+	if thorough {
+		sc = append(sc,
+			scenario{Name: "ca-clients-three-holders-of-one-ca-overlap", Threads: [][]op{{caSign("ca-alice", "rsaA", "sha256", "")}, {caSign("ca-bob", "p256A", "sha384", "opus-bob")}, {caSign("ca-carol", "rsaA", "sha512", "opus-carol")}}},
+			scenario{Name: "ca-clients-two-cas-two-holders-each", Threads: [][]op{{caSign("ca-alice", "rsaA", "sha256", ""), by("ca-bob", lst)}, {caSign("ca-dave", "p256B", "sha256", "opus-dave"), by("ca-erin", op{Kind: "keyinfo", Key: "nightonly"})}}},
+		)
+	}
 	// server.numworkers set on a server with an in-process token, and requests
 	// that cannot be served (they fail while the key and its certificates are
 	// prepared: the key has no certificate of the kind the signature type needs,
@@ -573,7 +728,13 @@ func auditNames(blob []byte) (names []string, torn int) {
 		if x, ok := m["attributes"].(map[string]any); ok {
 			a = x
 		}
-		names = append(names, fmt.Sprintf("%v|%v|%v|%v", a["client.filename"], a["sig.keyname"], a["sig.hash"], a["client.name"]))
+		get := func(k string) string {
+			if v, ok := a[k]; ok {
+				return fmt.Sprint(v)
+			}
+			return "-"
+		}
+		names = append(names, strings.ToLower(strings.Join([]string{get("client.filename"), get("sig.keyname"), get("sig.hash"), get("client.name"), get("client.dn"), get("client.ip")}, "|")))
 	}
 	return
 }
@@ -895,7 +1056,7 @@ func runScenario(sc scenario, bound int, keyName string) scenarioStats {
 					if why := checkSign(o, out); why != "" {
 						run.Violation("sched:sign-response-not-isolated:"+keyName, fmt.Sprintf("%s: %s: %s", desc, o, why), replay)
 					} else {
-						wantAudit = append(wantAudit, fmt.Sprintf("%s|%s|%s|%s", o.Name, targetOf(o.Key), auditHash(o.Digest), clients[o.Client].Nickname))
+						wantAudit = append(wantAudit, wantAuditLine(o))
 					}
 				case "list", "keyinfo", "home":
 					if has && (out.Status != e.Status || !bytes.Equal(out.Body, e.Body)) {
@@ -938,6 +1099,9 @@ func runScenario(sc scenario, bound int, keyName string) scenarioStats {
 func schedPhase() {
 	defer resetConfigVariant()
 	for _, sc := range scenarios(run.Thorough()) {
+		if os.Getenv("C14_ONLY") == "ca" && !strings.HasPrefix(sc.Name, "ca-") { // development aid
+			continue
+		}
 		bound := 2
 		if run.Thorough() && len(sc.Threads) < 3 {
 			bound = 3
@@ -960,7 +1124,13 @@ func schedPhase() {
 // p256B: r, rel, night).
 func clientAlphabet() []op {
 	var ops []op
-	for _, c := range clientOrder {
+	order := clientOrder
+	if run.Thorough() {
+		// ... and holders of CA-issued certificates: one of the CA entry with a
+		// nickname, two of the entry without
+		order = append(append([]string{}, order...), "ca-alice", "ca-dave", "ca-erin")
+	}
+	for _, c := range order {
 		tag := c
 		if tag == "" {
 			tag = "r"
@@ -1039,7 +1209,7 @@ func clientHistories() {
 			views[cl] = fmt.Sprintf("%d %s", e.Status, strings.TrimSpace(string(e.Body)))
 		}
 	}
-	run.Set("client_histories", map[string]any{"clients": len(clientOrder), "alphabet": len(alpha), "depth": depth, "histories": total, "key_listing_in_isolation": views})
+	run.Set("client_histories", map[string]any{"clients": len(alpha) / 4, "alphabet": len(alpha), "depth": depth, "histories": total, "key_listing_in_isolation": views})
 }
 
 func auditHash(d string) string {
@@ -1292,15 +1462,24 @@ func main() {
 	}
 	defer os.RemoveAll(dir)
 	scratch = dir
-	if os.Getenv("C14_ONLY") == "timestamp" { // development aid
+	switch os.Getenv("C14_ONLY") { // development aid
+	case "timestamp":
 		timestampPhase()
+	case "ca":
+		schedPhase()
+	case "signals":
+		signalPhase()
+	}
+	if os.Getenv("C14_ONLY") != "" {
 		run.Capped("C14_ONLY set")
+		os.RemoveAll(dir)
 		run.Finish()
 	}
 	schedPhase()
 	clientHistories()
 	timestampPhase()
 	shutdownPhase()
+	signalPhase()
 	// race pass in the -race binary
 	cmd := exec.Command("/verif/.build/bin/c14race")
 	cmd.Env = append(os.Environ(), "C14_RACEPASS=1", "C14_SCRATCH="+dir, "VERIF_TIER="+run.Tier, "GORACE=halt_on_error=0 exitcode=0")
@@ -1333,10 +1512,11 @@ func main() {
 		run.Capped(fmt.Sprintf("race pass did not complete: %v", rerr))
 	}
 	_ = context.Background
-	run.Rule("(a) for each of 25 (thorough 34) scenarios of 1-3 threads (sign with two keys, same key, alias, list/keyinfo, health check + /health, key-cache expiry between signs, Close (then Close again) during a health check and /health, three signers, a client hanging up, rate-limited tokens, gzip responses; requests by clients with different role sets (r, rel, night, rel+night, a role no key lists) over keys with different role lists overlapping; and 5 (thorough 8) scenarios in which the first token.ping / token.getkey(key) / token.sign(key) reached does not return until no thread can take a step any more, on one token or with a second token configured; and server.numworkers in {1,2} set on the server with its in-process token, with requests that cannot be served - they fail while the key and its certificates are prepared: sigtype pgp for a key without a PGP certificate, a key whose certificate file does not exist - before and among requests that can: numworkers refused requests then two valid ones on one connection, and two threads each sending a refused request followed by a valid one (thorough also: two valid requests overlapping with numworkers 1, three threads with numworkers 2)): every interleaving with <=2 preemptions (thorough 3 for 2-thread scenarios) over the hooked mutex/token/audit-file operations (every system call on the audit file is a scheduling point: open, write, close and - should the sink use them - seek, stat, read/pread, pwrite, truncate, or a callback on the raw descriptor); oracle per request = result in isolation (patch applied to that request's body verifies, names its key, digest and description; a refused request is refused with the same status and body; a request that is still inside the server when no thread can take a step and nothing of the environment is outstanding is reported as never answered - the harness then ends its context, as a client hanging up would, so that the execution ends; listings, key info, home byte-equal), audit lines = successful signs with the signing client's name, and in the stall scenarios: a request that needs no token (health, list_keys, home) or only the other token must not be among the requests that are still waiting when nothing but the stalled token operation is left to finish; (a') every history of <=2 (thorough <=3, without signing at depth 3) requests from the alphabet {list_keys, key info of a key granted to r+rel, key info of a key granted to night only, sign with a key granted to r+rel+night} x 6 clients (the five role sets and a certificate the server does not know) issued sequentially against one server, same oracle; (b) free-running -race pass over all scenarios' thread bodies; (c) daemon.Close released at 2 hooked points of an in-flight request on a real loopback daemon. distinct_nontrivial = schedules with at least one preemption, and histories with at least two different clients")
+	run.Rule("(a) for each of 28 (thorough 39) scenarios of 1-3 threads (sign with two keys, same key, alias, list/keyinfo, health check + /health, key-cache expiry between signs, Close (then Close again) during a health check and /health, three signers, a client hanging up, rate-limited tokens, gzip responses; requests by clients with different role sets (r, rel, night, rel+night, a role no key lists) over keys with different role lists overlapping; callers admitted through a CA certificate (clients.<name>.certificate; two harness CAs made at run time: one entry with a nickname and three certificate holders, one entry without a nickname and two holders; each caller from an address of its own): two holders of one CA overlapping, a holder and a fingerprint-configured client on the same key, two holders of the entry without nickname (thorough also: three holders of one CA, two CAs with two holders each); and 5 (thorough 8) scenarios in which the first token.ping / token.getkey(key) / token.sign(key) reached does not return until no thread can take a step any more, on one token or with a second token configured; and server.numworkers in {1,2} set on the server with its in-process token, with requests that cannot be served - they fail while the key and its certificates are prepared: sigtype pgp for a key without a PGP certificate, a key whose certificate file does not exist - before and among requests that can: numworkers refused requests then two valid ones on one connection, and two threads each sending a refused request followed by a valid one (thorough also: two valid requests overlapping with numworkers 1, three threads with numworkers 2)): every interleaving with <=2 preemptions (thorough 3 for 2-thread scenarios) over the hooked mutex/token/audit-file operations (every system call on the audit file is a scheduling point: open, write, close and - should the sink use them - seek, stat, read/pread, pwrite, truncate, or a callback on the raw descriptor); oracle per request = result in isolation (patch applied to that request's body verifies, names its key, digest and description; a refused request is refused with the same status and body; a request that is still inside the server when no thread can take a step and nothing of the environment is outstanding is reported as never answered - the harness then ends its context, as a client hanging up would, so that the execution ends; listings, key info, home byte-equal), audit lines = successful signs, each record compared in every field that identifies the request and its caller: client.filename, sig.keyname, sig.hash, client.name (the nickname of the clients: entry; for an entry without one the first 12 hex digits of the SHA-256 of the caller's public key), client.dn (the subject of the caller's certificate in OpenSSL one-line form for CA-admitted callers, absent for fingerprint-configured ones) and client.ip (the address that request came from), and in the stall scenarios: a request that needs no token (health, list_keys, home) or only the other token must not be among the requests that are still waiting when nothing but the stalled token operation is left to finish; (a') every history of <=2 (thorough <=3, without signing at depth 3) requests from the alphabet {list_keys, key info of a key granted to r+rel, key info of a key granted to night only, sign with a key granted to r+rel+night} x 6 clients (the five role sets and a certificate the server does not know) issued sequentially against one server, same oracle; (b) free-running -race pass over all scenarios' thread bodies; (c) daemon.Close released at 2 hooked points of an in-flight request on a real loopback daemon. (d) the real `relic serve` process (built from /repo's main package without shims) and the signals it registers for (read from the signal.Notify call in cmdline/servecmd: SIGINT SIGTERM SIGQUIT SIGUSR2 ask it to stop, SIGUSR1 - log re-opening - does not): every history of <=2 (thorough <=3) registered signals with no stop signal, or exactly one and that at its end (thorough also those ending in two stop signals: only the exit of the process is required), one server process per history, delivered while a /sign request is in flight (headers sent with Expect: 100-continue, 100 Continue received = the handler is reading the body, half the body sent; then the signals one by one, each taken by the process before the next; then the rest of the body): the request is answered 200 with a signature over its body by its key and digest, the audit file holds exactly the records of the answered requests, after a stop signal the process exits (a process still running 60 s after the answer is a violation), without one it goes on serving (a second request is answered; SIGTERM then ends it). distinct_nontrivial = schedules with at least one preemption, and histories with at least two different clients")
 	run.Assume("a stalled token operation is modelled at its extreme: it outlasts everything else that can happen (the scheduler releases it only when no thread is enabled); intermediate durations are not enumerated separately")
 	run.Assume("the audit file is an in-memory file (verif/shim/vos) emulating *os.File system call by system call (O_APPEND: the kernel positions and writes atomically; otherwise the descriptor's own offset; Seek/ReadAt/WriteAt/Stat/Truncate; SyscallConn/Fd give the descriptor of a real file mirroring it, one callback = one atomic step)")
-	run.Assume("clients are told apart by certificate fingerprint (config clients.<fingerprint>); clients authenticated through a CA certificate or a policy server are not enumerated")
+	run.Assume("clients are configured by certificate fingerprint (clients.<fingerprint>) or admitted through a CA certificate (clients.<name>.certificate, certificates issued directly by the CA, subjects of one CN attribute); intermediate CAs between the configured CA and the caller, multi-attribute subjects and clients authenticated through a policy server or Azure AD are not enumerated")
+	run.Assume("signal histories: the in-flight request is at one point (the handler reading the body); signals the serve command does not register for (their default action ends the process) are not sent; what each registered signal asks for is fixed by the harness (POSIX termination requests and einhorn's USR2 = stop, USR1 = go on), a registered signal outside that table is left out and reported as capped; two signals are told apart in time by waiting until the first is no longer pending plus 300 ms - should the process still see them in the other order, the verdict is the same for every history that is judged")
 	run.Assume("net/http's own goroutines are not under the scheduler; the shutdown clause is explored only at the handler's hooked points")
 	run.Assume("the 'no data race' clause rests on the race detector over free-running executions (not exhaustive)")
 	os.RemoveAll(dir) // Finish exits the process: deferred calls do not run
